@@ -855,7 +855,7 @@ def project_storage(d):
 
 def project_search(sc, run):
     """StepSizeSearchTrace vocabulary. Returns the list of lines of all searches of one chain."""
-    lines = []
+    lines = [{"e": "reset"}]
     cur = None     # state of the search being projected
     for ev in run:
         k = ev["ev"]
